@@ -1036,8 +1036,8 @@ def derivative_curve(obj):
     pkl = helpers.curve_deriv_cpts(obj.dimension, obj.degree, obj.knotvector, obj.ctrlpts,
                                           rs=(0, obj.ctrlpts_size - 1), deriv_order=1)
 
-    # Generate the derivative curve
-    curve = obj.__class__()
+    # Generate the derivative curve (its knot vector must be used as it is, without re-normalization)
+    curve = obj.__class__(normalize_kv=False)
     curve.degree = obj.degree - 1
     curve.ctrlpts = pkl[1][0:-1]
     curve.knotvector = obj.knotvector[1:-1]
@@ -1324,6 +1324,7 @@ def derivative_surface(obj):
         ctrlpts2d_u.append(pkl[1][0][i])
 
     surf_u = copy.deepcopy(obj)
+    surf_u._kv_normalize = False  # the knot vectors below must be used as they are, without re-normalization
     surf_u.degree_u = obj.degree_u - 1
     surf_u.ctrlpts2d = ctrlpts2d_u
     surf_u.knotvector_u = obj.knotvector_u[1:-1]
@@ -1334,6 +1335,7 @@ def derivative_surface(obj):
         ctrlpts2d_v.append(pkl[0][1][i][0:-1])
 
     surf_v = copy.deepcopy(obj)
+    surf_v._kv_normalize = False
     surf_v.degree_v = obj.degree_v - 1
     surf_v.ctrlpts2d = ctrlpts2d_v
     surf_v.knotvector_v = obj.knotvector_v[1:-1]
@@ -1344,7 +1346,7 @@ def derivative_surface(obj):
         ctrlpts2d_uv.append(pkl[1][1][i][0:-1])
 
     # Generate the derivative curve
-    surf_uv = obj.__class__()
+    surf_uv = obj.__class__(normalize_kv=False)
     surf_uv.degree_u = obj.degree_u - 1
     surf_uv.degree_v = obj.degree_v - 1
     surf_uv.ctrlpts2d = ctrlpts2d_uv
